@@ -25,7 +25,7 @@ RULE = (
     "child change; distinct = distinct (tree fingerprint, operation, change kinds)"
 )
 ASSUMPTIONS = ["control construction: Cls(**merged fields) built in the same registry state gives 'the id a fresh construction would get' (id determinism itself is C03's subject)"]
-MUST_SEE = [
+MUST_SEE = ["dup_of_node_from_edited_payload", 
     "dup_tuple_depth_ge2", "dup_shared", "dup_stale_twin_in_tree", "replace_detached_with_live_twin", "replace_noncompare_only",
     "replace_child_equal_twin", "dc_replace", "control_constructions", "dup_noninit_fields",
 ]
@@ -47,7 +47,7 @@ def run_shard(ctx):
     ctx.extra["first_use_order"] = warm_up(U, ctx.rng("warm-up"))[:6]
     for case in ctx.cases(ctx.params["cases"]):
         rng = ctx.rng(case)
-        tg = G.TreeGen(rng, U, max_nodes=rng.choice([3, 9, 20]), max_depth=6, max_width=4, share=0.2 if case % 3 == 0 else 0.0, twin=0.25, p_origin=0.4, hostile=0.05, exclude=(f"{P}Ser",))
+        tg = G.TreeGen(rng, U, max_nodes=rng.choice([3, 9, 20]), max_depth=6, max_width=4, share=0.2 if case % 3 == 0 else 0.0, twin=0.25, p_origin=0.4, hostile=0.05, exclude=(f"{P}Ser",), opaque=True)
         s = tg.tree()
         stale_twin = False
         if case % 4 == 1:
@@ -244,3 +244,36 @@ def run_shard(ctx):
         for _ in range(3):
             replace_round(rng.choice(targets))
         root.detach()
+
+    # ---- originals that came out of a payload whose stored ids no longer match its (hand-edited) content ----
+    def edit_first_int(d):
+        if isinstance(d, dict):
+            if isinstance(d.get("v"), int) and not isinstance(d.get("v"), bool):
+                d["v"] += 1000
+                return True
+            return any(edit_first_int(x) for x in d.values())
+        if isinstance(d, list):
+            return any(edit_first_int(x) for x in d)
+        return False
+
+    def payload_round(k):
+        rng = ctx.rng(("payload", k))
+        tg = G.TreeGen(rng, U, max_nodes=8, max_depth=4, max_width=3, share=0.0, twin=0.0, p_origin=0.3, hostile=0.0, exclude=(f"{P}Ser", f"{P}Blob"))
+        s = tg.tree()
+        r0 = build(U, s)
+        d = r0.as_dict()
+        r0.detach()
+        del r0
+        if not edit_first_int(d):
+            return
+        root = U.cls[s.cls].as_obj(d)
+        dup = root.duplicate()
+        ctx.evaluations += 1
+        ctx.count("dup_of_node_from_edited_payload")
+        if dup is root or not (dup == root) or not (root == dup) or dump_node(U, dup, with_id=False) != dump_node(U, root, with_id=False):
+            ctx.violation("dup-not-equal", "the duplicate of a tree that was read from a payload with edited content is not == to it", {"tree": spec_json(s), "ids": (root.id, dup.id)})
+        dup.detach()
+        root.detach()
+
+    for k in range(25):
+        payload_round(k)
